@@ -43,7 +43,8 @@ def gen(rng, depth, in_tr):
     if rng.random() < .35:
         st['translate'] = rng.choice(['', '', 'msg%d' % rng.randint(1, 9)])
     if in_tr and rng.random() < .5:
-        st['name'] = 'n%d' % rng.randint(1, 3)
+        # (names that differ only in a character outside identifiers are different names)
+        st['name'] = rng.choice(['n1', 'n2', 'n3', 'n1', 'n2', 'n3', 'n-1', 'n_1', 'n.1'])
     if rng.random() < .2:
         st['domain'] = 'd%d' % rng.randint(1, 2)
     if rng.random() < .15:
@@ -134,7 +135,7 @@ def make_T(kind):
     def T(msgid, default, mapping):
         s = default if default is not None else msgid
         if mapping:
-            s = re.sub(r'\$\{(\w+)\}', lambda m: str(mapping.get(m.group(1), m.group(0))), s)
+            s = re.sub(r'\$\{([\w.-]+)\}', lambda m: str(mapping.get(m.group(1), m.group(0))), s)
         return '«' + s + '»' if kind == 'rewriting' else s
     return T
 
